@@ -116,29 +116,56 @@ let eval (op : string) (a : string list) : string =
         | MEof -> "!eof" | MErr -> "!err" | MPanic -> "!panic" | MUnmodelled -> "!unmodelled") in
     let (its, _) = dec_prefix decomp (nat_of_int (List.length body)) body in
     "P " ^ p ^ " M " ^ m ^ " E " ^ show_orecs (records its)
-  | "pg", [ops] ->
-    (* page transition system: run the ops, print refcounts and what every ref reads *)
+  | ("pg" | "pgr"), [ops] ->
+    (* page transition system: run the ops; pg prints the final refcounts and what every ref
+       reads; pgr additionally prints a digest of the whole state at every "ck" *)
     let ni s = nat_of_int (int_of_n (n_of_hex s)) in
-    let parse_op (o : string) : op =
+    let fuel = nat_of_int 400 in
+    let pages_arr s = Array.of_list s.s_pages in
+    let fnv h l = List.fold_left (fun h b -> ((h lxor (int_of_n b)) * 16777619) land 0xffffffff) h l in
+    let digest s =
+      let pa = pages_arr s in
+      let bufs = List.map (fun bf ->
+          if not bf.b_live then "x" else begin
+            let off = ref 0 and h = ref 2166136261 in
+            let ps = List.map (fun p ->
+                let pg = pa.(int_of_nat p) in
+                let len = List.length pg.p_data in
+                let s = Printf.sprintf "%x.%x.%x" (int_of_nat p) !off len in
+                off := !off + len; h := fnv !h pg.p_data; s) bf.b_pages in
+            (if ps = [] then "-" else String.concat "_" ps) ^ "#" ^ Printf.sprintf "%x" !h
+          end) s.s_bufs in
+      let refcs = if s.s_pages = [] then "." else
+          String.concat "," (List.map (fun pg -> Printf.sprintf "%x" (int_of_nat pg.p_refc)) s.s_pages) in
+      String.concat "," bufs ^ "/" ^ refcs in
+    let trace = ref [] and suffix = ref "" in
+    let exec (s : pstate) (o : string) : pstate option =
       match String.split_on_char ':' o with
-      | ["nb"] -> ONewBuf
-      | ["np"; b; "f"] -> ONewPage (ni b, None)
-      | ["np"; b; p] -> ONewPage (ni b, Some (ni p))
-      | ["ap"; b; d] -> OAppend (ni b, bytes_of_hex d)
+      | ["ck"] -> trace := (digest s ^ !suffix) :: !trace; suffix := ""; Some s
+      | ["nb"] -> step s ONewBuf
+      | ["np"; b; "f"] -> step s (ONewPage (ni b, None))
+      | ["np"; b; p] -> step s (ONewPage (ni b, Some (ni p)))
+      | ["ap"; b; d] -> step s (OAppend (ni b, bytes_of_hex d))
       | ["rf"; b; segs] ->
         let segs = if segs = "." || segs = "" then [] else
             List.map (fun sg -> match String.split_on_char '.' sg with
                 | [p; lo; hi] -> (ni p, (ni lo, ni hi))
                 | _ -> failwith "bad seg") (String.split_on_char ',' segs) in
-        ORef (ni b, segs)
-      | ["ub"; b] -> OUnrefBuf (ni b)
-      | ["ur"; r] -> OUnrefRef (ni r)
+        step s (ORef (ni b, segs))
+      | ["ub"; b] -> step s (OUnrefBuf (ni b))
+      | ["ur"; r] -> step s (OUnrefRef (ni r))
+      | ["rdf"; b; d; src; ret] ->
+        let data = bytes_of_hex d in
+        let src = if src = "." then [] else
+            List.map (fun x -> if x = "f" then None else Some (ni x)) (String.split_on_char ',' src) in
+        let cls = (match String.split_on_char '.' ret with [_; c] -> c | _ -> "?") in
+        suffix := Printf.sprintf "=%x.%s" (List.length data) cls;
+        pb_read_from fuel s (ni b) data src
       | _ -> failwith ("bad page op " ^ o) in
-    let ops = List.map parse_op (String.split_on_char ';' ops) in
     let rec go s i = function
       | [] -> Ok s
-      | o :: t -> (match step s o with Some s' -> go s' (i + 1) t | None -> Error i) in
-    (match go s0 0 ops with
+      | o :: t -> (match exec s o with Some s' -> go s' (i + 1) t | None -> Error i) in
+    (match go s0 0 (String.split_on_char ';' ops) with
      | Error i -> Printf.sprintf "DISABLED:%x" i
      | Ok s ->
        let refcs = if s.s_pages = [] then "." else
@@ -148,7 +175,8 @@ let eval (op : string) (a : string list) : string =
                match read_ref s (nat_of_int i) with
                | None -> "x"
                | Some bs -> hex_of_bytes bs) s.s_refs) in
-       refcs ^ " R " ^ reads)
+       let fin = refcs ^ " R " ^ reads in
+       if op = "pgr" then String.concat ";" (List.rev !trace) ^ " " ^ fin else fin)
   | "pgc", [_; _] -> "ok"
   | _ -> "BADCASE"
 
